@@ -1,4 +1,8 @@
 /* L0 primitives whose signatures mention lowered struct types (included after the struct definitions). */
+#ifdef L0_CONCRETE
+#include "l0c_post.h"
+#define L0_POST_H
+#endif
 #ifndef L0_POST_H
 #define L0_POST_H
 #ifdef HAVE_pair_pE_pE
